@@ -566,9 +566,21 @@ class _ExternalDataWriter:
             ),
         )
 
-    def _write_tensor(self, tensor, file, info: _ExternalDataInfo, budget) -> None:
-        """Write one tensor, serializing repeated references to the same object."""
+    def _write_tensor(
+        self, index: int, tensor, file, info: _ExternalDataInfo, budget, callback_lock=None
+    ) -> None:
+        """Report and write one tensor, serializing repeated references to the same object.
+
+        The callback receives the tensor object, so it runs under the tensor's lock
+        as well: a callback that evaluates a tensor shared by several initializers
+        never overlaps with another thread writing (evaluating) the same object.
+        """
         with self._tensor_write_locks[id(tensor)]:
+            if callback_lock is None:
+                self._invoke_callback(index, tensor, info.offset)
+            else:
+                with callback_lock:
+                    self._invoke_callback(index, tensor, info.offset)
             _write_tensor_with_budget_at(
                 tensor,
                 file,
@@ -586,11 +598,10 @@ class _ExternalDataWriter:
                 zip(self._tensors, self._external_data_infos, strict=True)
             ):
                 assert tensor is not None
-                self._invoke_callback(i, tensor, tensor_info.offset)
                 # A shard may use a serial writer while other shards are written
                 # concurrently. Honor their shared budget here too; otherwise one
                 # tensor per shard can be materialized at once with no byte bound.
-                self._write_tensor(tensor, data_file, tensor_info, self._budget)
+                self._write_tensor(i, tensor, data_file, tensor_info, self._budget)
 
     def _write_parallel(self, max_workers: int) -> None:
         """Write concurrently through one file descriptor per worker.
@@ -638,9 +649,7 @@ class _ExternalDataWriter:
             tensor = self._tensors[index]
             info = self._external_data_infos[index]
             assert tensor is not None
-            with callback_lock:
-                self._invoke_callback(index, tensor, info.offset)
-            self._write_tensor(tensor, _thread_file(), info, budget)
+            self._write_tensor(index, tensor, _thread_file(), info, budget, callback_lock)
 
         executor = concurrent.futures.ThreadPoolExecutor(max_workers=max_workers)
         try:
